@@ -193,6 +193,41 @@ def run_rigid_body(spec, ctx, ct, log):
                     S.set_new_initial_state(qq, u.copy(), t0=float(rng.uniform(0, 1)), options=gen.no_cic_options())
                     ctx.mon("STATE:reassemble")
             continue
+        if rng.random() < 0.04:
+            # whole-number probe: two consecutive calls of one memoised method whose arguments differ in ONE slot only, by
+            # -1.0 against -2.0 (whole-number coordinates / offsets / times are what hand-written set-ups contain)
+            op = MEMOISED[int(rng.integers(len(MEMOISED)))]
+            qa = rng.integers(-2, 3, size=7).astype(float)
+            if not np.any(qa[3:]):
+                qa[3] = 1.0
+            ua = rng.integers(-2, 3, size=6).astype(float)
+            Ba = rng.integers(-2, 3, size=3).astype(float)
+            ta = float(rng.integers(-2, 3))
+            slot = ["q", "B", "t", "u"][int(rng.integers(4))] if op in ("v_P",) else ["q", "B", "t"][int(rng.integers(3))]
+            if op in ("A_IB", "A_IB_q") and slot == "B":
+                slot = "q"
+            qb, ub, Bb, tb = qa.copy(), ua.copy(), Ba.copy(), ta
+            if slot == "q":
+                k_ = int(rng.integers(7)); qa[k_], qb[k_] = -1.0, -2.0
+            elif slot == "u":
+                k_ = int(rng.integers(6)); ua[k_], ub[k_] = -1.0, -2.0
+            elif slot == "B":
+                k_ = int(rng.integers(3)); Ba[k_], Bb[k_] = -1.0, -2.0
+            else:
+                ta, tb = -1.0, -2.0
+            if rng.random() < 0.5:
+                qa, qb, ua, ub, Ba, Bb, ta, tb = qb, qa, ub, ua, Bb, Ba, tb, ta
+            log.add(op, probe="whole_number_pair", slot=slot)
+            ctx.cls("probe:whole_number_pair")
+            f = getattr(body, op)
+            for t_, q_, u_, B_ in ((ta, qa, ua, Ba), (tb, qb, ub, Bb)):
+                if op in ("A_IB", "A_IB_q"):
+                    f(t_, q_)
+                elif op == "v_P":
+                    f(t_, q_, u_, B_r_CP=B_)
+                else:
+                    f(t_, q_, B_r_CP=B_)
+            continue
         op = OPS[int(rng.integers(len(OPS)))]
         kt, t = _pick(rng, ts)
         kq, q = _pick(rng, qs)
@@ -385,6 +420,7 @@ def run_s2s(spec, ctx, ct, log):
     STATE_OPS = ["step_callback", "system_step_callback", "reassemble", "set_new_initial_state"]
     directed = spec.get("directed")
     nops = spec["nops"]
+    twin_box = {}
     for k in range(nops):
         kt, t = _pick(rng, ts)
         kq, q = _pick(rng, qs)
@@ -447,6 +483,23 @@ def run_s2s(spec, ctx, ct, log):
                 else:
                     S.set_new_initial_state(unitise(q), u.copy(), t0=t, options=gen.no_cic_options())
                     ctx.mon("STATE:reassemble")
+            continue
+        if op is None and not directed and rng.random() < 0.06:
+            # a second contact object of the same class with OTHER hidden state (a deep copy of the system whose reference basis
+            # was moved on by step callbacks) is evaluated at the same (t, q) right after this one
+            if "twin" not in twin_box:
+                S2 = S.deepcopy()
+                twin_box["twin"] = (S2, [c_ for c_ in S2.contributions if c_.__class__ is con.__class__][0])
+            S2, con2 = twin_box["twin"]
+            qj = qs[int(rng.integers(len(qs)))]
+            with gen.quiet():
+                con2.step_callback(t, qj[con2.qDOF].copy(), u[con2.uDOF].copy())
+            log.add("twin_probe", t=kt, q=kq)
+            ctx.cls("s2s:twin_contact_alternating")
+            for name in ("n", "t1t2", "t1t2_q1_q2", "n_q1_q2"):
+                getattr(con, name)(t, ql)
+                getattr(con2, name)(t, q[con2.qDOF])
+            S.gamma_F(t, q, u); S2.gamma_F(t, q, u); S.W_F(t, q); S2.W_F(t, q)
             continue
         if op is None:
             pool = [L0, L0, L1, L2, SYS][int(rng.integers(5))]
